@@ -161,7 +161,12 @@ impl GroupEncoding for Curve25519Affine {
     fn from_bytes(bytes: &Self::Repr) -> CtOption<Self> {
         let compressed = CompressedEdwardsY(*bytes);
         match compressed.decompress() {
-            Some(point) => CtOption::new(Curve25519Affine::from_edwards(point), Choice::from(1u8)),
+            Some(point) => {
+                // `decompress` also accepts an unreduced y and a sign bit on x = 0: only the
+                // image of `to_bytes` is a valid encoding.
+                let canonical = point.compress().to_bytes() == *bytes;
+                CtOption::new(Curve25519Affine::from_edwards(point), Choice::from(canonical as u8))
+            }
             None => CtOption::new(Curve25519Affine::default(), Choice::from(0u8)),
         }
     }
